@@ -30,6 +30,15 @@ func c03Accounting(r *R) {
 	decide := func(n int, ctx vivid.SupervisionContext) vivid.SupervisionDecision {
 		return c03Decisions[vsimrt.Choose(vsimrt.KWork, len(c03Decisions))]
 	}
+	// supervisors below the root also escalate (a quarter of their decisions): the decision is then taken one or two
+	// levels up and has to reach the actor that failed (added after seeded wave 10)
+	decideMid := func(n int, ctx vivid.SupervisionContext) vivid.SupervisionDecision {
+		if vsimrt.Choose(vsimrt.KWork, 4) == 0 {
+			r.Count("decision-escalated")
+			return vivid.SupervisionDecisionEscalate
+		}
+		return c03Decisions[vsimrt.Choose(vsimrt.KWork, len(c03Decisions))]
+	}
 	w := newWorld(r, WorldOpt{MakeStrategy: func(w *World) vivid.SupervisionStrategy { return vivid.OneForOneStrategy(w.NewMaker("system", decide)) }})
 	if r.Failed() {
 		return
@@ -52,14 +61,14 @@ func c03Accounting(r *R) {
 		return nil
 	}
 	nChildren := 1 + r.Choose(3)
-	aM := w.NewMaker("a", decide)
+	aM := w.NewMaker("a", decideMid)
 	top := &Spec{Name: "a", Strategy: vivid.OneForOneStrategy(aM), Restarted: restartedHook}
 	paths := []string{"/a"}
 	for i := 0; i < nChildren; i++ {
 		c := &Spec{Name: fmt.Sprintf("b%d", i), Provider: r.Chance(50), Restarted: restartedHook}
 		if r.Chance(30) {
 			c.Children = []*Spec{{Name: "g", Restarted: restartedHook}}
-			c.Strategy = vivid.OneForOneStrategy(w.NewMaker(c.Name, decide))
+			c.Strategy = vivid.OneForOneStrategy(w.NewMaker(c.Name, decideMid))
 			paths = append(paths, "/a/"+c.Name+"/g")
 		}
 		top.Children = append(top.Children, c)
